@@ -1,1 +1,351 @@
-(* placeholder, filled below *)
+(* C13 — wildcardSearch.check / literalSearch.check decide exactly the glob. *)
+From Coq Require Import List Bool Arith NArith ZArith Lia.
+Import ListNotations.
+From C13 Require Import Model ProofsGlob ProofsKmp.
+
+(* ------------------------------------------------------------------ byte equality *)
+
+Lemma bcmp_eq a b : bcmp a b = Eq <-> a = b.
+Proof.
+  revert b. induction a as [|x a IH]; intros [|y b]; simpl; try (split; [discriminate|congruence]);
+    try tauto.
+  destruct (N.compare_spec x y) as [->|L|L].
+  - rewrite IH. split; congruence.
+  - split; [discriminate|]. intros H. inversion H. lia.
+  - split; [discriminate|]. intros H. inversion H. lia.
+Qed.
+
+Lemma beqb_true a b : beqb a b = true <-> a = b.
+Proof.
+  unfold beqb. rewrite <- bcmp_eq. destruct (bcmp a b); split; congruence.
+Qed.
+
+(* ------------------------------------------------------------------ findSequence is greedy-optimal *)
+
+(* the patterns occur one after the other, in order, without overlap *)
+Fixpoint SeqM (ms : list bytes) (t : bytes) : Prop :=
+  match ms with
+  | [] => True
+  | m :: r => exists g w, t = g ++ m ++ w /\ SeqM r w
+  end.
+
+Lemma SeqM_prepend ms x t : SeqM ms t -> SeqM ms (x ++ t).
+Proof.
+  destruct ms as [|m r]; simpl; [trivial|].
+  intros (g & w & -> & H). exists (x ++ g), w. split; [now rewrite <- app_assoc | exact H].
+Qed.
+
+Lemma SeqM_len ms t : SeqM ms t -> fold_right (fun m n => length m + n) 0 ms <= length t.
+Proof.
+  revert t. induction ms as [|m r IH]; intros t; simpl; [lia|].
+  intros (g & w & -> & H). apply IH in H. rewrite !app_length. lia.
+Qed.
+
+Lemma skipn_app_len {A} (u w : list A) : skipn (length u) (u ++ w) = w.
+Proof. induction u; simpl; auto. Qed.
+
+Lemma find_sequence_spec ms : (forall m, In m ms -> m <> []) ->
+  forall s, exists k, find_sequence s ms = Some k /\ (k = length ms <-> SeqM ms s).
+Proof.
+  induction ms as [|m r IH]; intros Hne s.
+  - exists 0. simpl. tauto.
+  - simpl. pose proof (find_substring_leftmost s m (Hne m (or_introl eq_refl))) as H.
+    destruct (find_substring s m) as [e| |].
+    + destruct H as ((u & w & Es & Ee) & Hmin).
+      destruct (IH (fun x Hx => Hne x (or_intror Hx)) (skipn e s)) as (k & Ek & Hk).
+      rewrite Ek. exists (S k). split; [reflexivity|].
+      assert (Esk : skipn e s = w).
+      { subst e s. rewrite app_assoc, <- app_length. apply skipn_app_len. }
+      rewrite Esk in Hk. split.
+      * intros E. exists u, w. split; [exact Es|]. apply Hk. lia.
+      * intros (g & w' & Es' & Hw'). f_equal. apply Hk.
+        assert (Hle : e <= length g + length m) by (apply Hmin; now exists g, w').
+        assert (Ex : exists x, w = x ++ w').
+        { rewrite Es in Es'. rewrite !app_assoc in Es'.
+          eapply app_suffix_cmp; [exact Es'|].
+          apply (f_equal (@length N)) in Es'. rewrite !app_length in Es'. lia. }
+        destruct Ex as (x & ->). now apply SeqM_prepend.
+    + exists 0. split; [reflexivity|]. split; [discriminate|].
+      intros (g & w & Es & _). exfalso. apply (H (length g + length m)). now exists g, w.
+    + contradiction.
+Qed.
+
+(* ------------------------------------------------------------------ shape of well-formed term lists *)
+
+(* starts with '*', ends with '*', text terms non-empty and never adjacent *)
+Inductive inner : list term -> Prop :=
+| in_star : inner [TStar]
+| in_ss ts : inner ts -> inner (TStar :: ts)
+| in_st m ts : m <> [] -> inner ts -> inner (TStar :: TText m :: ts).
+
+Definition opt_text (l : list term) : Prop := l = [] \/ exists s, s <> [] /\ l = [TText s].
+
+Lemma wf_star_decomp n : forall ts, length ts <= n -> wf_from false (TStar :: ts) = true ->
+  exists I S, TStar :: ts = I ++ S /\ inner I /\ opt_text S.
+Proof.
+  induction n as [|n IH]; intros ts L H.
+  - destruct ts; [|simpl in L; lia]. exists [TStar], []. repeat split; [constructor | now left].
+  - destruct ts as [|[m|] r].
+    + exists [TStar], []. repeat split; [constructor | now left].
+    + simpl in H. destruct m as [|c m]; [discriminate|]. simpl in H.
+      destruct r as [|[m2|] r2].
+      * exists [TStar], [TText (c :: m)]. repeat split; [constructor|]. right. eexists; split; [|reflexivity]. discriminate.
+      * simpl in H. discriminate.
+      * destruct (IH r2) as (I & S & E & HI & HS); [simpl in L; lia | exact H |].
+        exists (TStar :: TText (c :: m) :: I), S. rewrite E. repeat split; auto.
+        constructor; [discriminate | exact HI].
+    + destruct (IH r) as (I & S & E & HI & HS); [simpl in L; lia | exact H |].
+      exists (TStar :: I), S. rewrite E. repeat split; auto. now constructor.
+Qed.
+
+Lemma wf_decomp ts : wf ts = true -> is_literal ts = None ->
+  exists P I S, ts = P ++ I ++ S /\ opt_text P /\ inner I /\ opt_text S.
+Proof.
+  intros W L. destruct ts as [|[p|] r]; [discriminate| |].
+  - destruct r as [|t r]; [discriminate|]. unfold wf in W.
+    simpl in W. destruct p as [|c p]; [discriminate|]. simpl in W.
+    destruct t as [m|]; [simpl in W; discriminate|].
+    destruct (wf_star_decomp (length r) r (le_n _) W) as (I & S & E & HI & HS).
+    exists [TText (c :: p)], I, S. simpl. rewrite E. repeat split; auto.
+    right. eexists; split; [|reflexivity]. discriminate.
+  - assert (W' : wf_from false (TStar :: r) = true) by (destruct r; exact W).
+    destruct (wf_star_decomp (length r) r (le_n _) W') as (I & S & E & HI & HS).
+    exists [], I, S. simpl. repeat split; auto. now left.
+Qed.
+
+Lemma inner_hd I : inner I -> exists I', I = TStar :: I' /\ texts I' = texts I.
+Proof. intros H. inversion H; subst; eexists; split; reflexivity. Qed.
+
+Lemma texts_app a b : texts (a ++ b) = texts a ++ texts b.
+Proof. unfold texts. now rewrite flat_map_app. Qed.
+
+Lemma inner_last I : inner I -> exists I', I = I' ++ [TStar] /\ texts I' = texts I.
+Proof.
+  induction 1 as [|ts H (I' & E & T)|m ts Hm H (I' & E & T)].
+  - now exists [].
+  - exists (TStar :: I'). rewrite E at 1. split; [reflexivity|]. simpl. exact T.
+  - exists (TStar :: TText m :: I'). rewrite E at 1. split; [reflexivity|]. simpl. now rewrite T.
+Qed.
+
+Lemma inner_texts_ne I : inner I -> forall m, In m (texts I) -> m <> [].
+Proof.
+  induction 1; simpl; intros x Hx; try contradiction; auto.
+  destruct Hx as [<-|Hx]; auto.
+Qed.
+
+Definition text_of (l : list term) : bytes := match l with TText s :: _ => s | _ => [] end.
+
+Lemma new_wildcard_decomp P I S : opt_text P -> inner I -> opt_text S ->
+  new_wildcard (P ++ I ++ S) = {| w_prefix := text_of P; w_suffix := text_of S; w_middle := texts I |}.
+Proof.
+  intros HP HI HS. unfold new_wildcard.
+  destruct (inner_hd I HI) as (Ih & EIh & Th).
+  destruct (inner_last I HI) as (Il & EIl & Tl).
+  f_equal.
+  - destruct HP as [->|(p & _ & ->)]; [subst I|]; reflexivity.
+  - destruct HS as [->|(s & _ & ->)].
+    + rewrite app_nil_r, EIl, app_assoc. now rewrite last_last.
+    + rewrite app_assoc. now rewrite last_last.
+  - rewrite <- Tl. destruct HS as [->|(s & _ & ->)].
+    + rewrite app_nil_r. destruct HP as [->|(p & _ & ->)]; simpl.
+      * rewrite EIl. destruct Il as [|x Il]; simpl; [reflexivity|].
+        rewrite removelast_last.
+        assert (x = TStar) by (rewrite EIh in EIl; simpl in EIl; congruence). now subst x.
+      * rewrite EIl, removelast_last. reflexivity.
+    + destruct HP as [->|(p & _ & ->)]; simpl.
+      * rewrite EIh. simpl. rewrite removelast_last. congruence.
+      * rewrite removelast_last. congruence.
+Qed.
+
+(* ------------------------------------------------------------------ declarative reading of a term list *)
+
+Lemma Matches_text_front p r v : Matches (TText p :: r) v <-> exists v', v = p ++ v' /\ Matches r v'.
+Proof.
+  split.
+  - intros H. inversion H; subst. eauto.
+  - intros (v' & -> & H). now constructor.
+Qed.
+
+Lemma Matches_star_front r v : Matches (TStar :: r) v <-> exists u t, v = u ++ t /\ Matches r t.
+Proof.
+  split.
+  - intros H. inversion H; subst. eauto.
+  - intros (u & t & -> & H). now constructor.
+Qed.
+
+Lemma Matches_nil v : Matches [] v <-> v = [].
+Proof. split; [intros H; now inversion H | intros ->; constructor]. Qed.
+
+Lemma Matches_text_end ts s : forall v, Matches (ts ++ [TText s]) v <-> exists v', v = v' ++ s /\ Matches ts v'.
+Proof.
+  induction ts as [|a ts IH]; intros v; simpl.
+  - rewrite Matches_text_front. split.
+    + intros (v' & -> & H). apply Matches_nil in H. subst. exists []. split; [now rewrite app_nil_r | constructor].
+    + intros (v' & -> & H). apply Matches_nil in H. subst. exists []. split; [now rewrite app_nil_r | constructor].
+  - destruct a as [p|].
+    + rewrite Matches_text_front. split.
+      * intros (v1 & -> & H). apply IH in H as (v' & -> & H'). exists (p ++ v').
+        split; [now rewrite app_assoc | now constructor].
+      * intros (v' & -> & H). apply Matches_text_front in H as (v1 & -> & H).
+        exists (v1 ++ s). split; [now rewrite app_assoc|]. apply IH. eauto.
+    + rewrite Matches_star_front. split.
+      * intros (u & t & -> & H). apply IH in H as (v' & -> & H'). exists (u ++ v').
+        split; [now rewrite app_assoc | now constructor].
+      * intros (v' & -> & H). apply Matches_star_front in H as (u & t & -> & H).
+        exists u, (t ++ s). split; [now rewrite app_assoc|]. apply IH. eauto.
+Qed.
+
+Lemma inner_matches I : inner I -> forall v, Matches I v <-> SeqM (texts I) v.
+Proof.
+  induction 1 as [|ts H IH|m ts Hm H IH]; intros v; simpl.
+  - split; [trivial|]. intros _. apply Matches_star_front. exists v, []. split; [now rewrite app_nil_r | constructor].
+  - rewrite Matches_star_front. split.
+    + intros (u & t & -> & HM). apply SeqM_prepend. now apply IH.
+    + intros HS. exists [], v. split; [reflexivity|]. now apply IH.
+  - rewrite Matches_star_front. split.
+    + intros (u & t & -> & HM). apply Matches_text_front in HM as (t' & -> & HM).
+      exists u, t'. split; [reflexivity|]. now apply IH.
+    + intros (g & w & -> & HS). exists g, (m ++ w). split; [reflexivity|]. constructor. now apply IH.
+Qed.
+
+Lemma opt_text_matches_front P r v : opt_text P ->
+  (Matches (P ++ r) v <-> exists v', v = text_of P ++ v' /\ Matches r v').
+Proof.
+  intros [->|(p & _ & ->)]; simpl.
+  - split; [eauto|]. now intros (v' & -> & H).
+  - apply Matches_text_front.
+Qed.
+
+Lemma opt_text_matches_end S r v : opt_text S ->
+  (Matches (r ++ S) v <-> exists v', v = v' ++ text_of S /\ Matches r v').
+Proof.
+  intros [->|(p & _ & ->)]; simpl.
+  - rewrite app_nil_r. split.
+    + intros H. exists v. now rewrite app_nil_r.
+    + intros (v' & -> & H). now rewrite app_nil_r.
+  - apply Matches_text_end.
+Qed.
+
+Lemma decomp_matches P I S v : opt_text P -> inner I -> opt_text S ->
+  (Matches (P ++ I ++ S) v <->
+   exists mid, v = text_of P ++ mid ++ text_of S /\ SeqM (texts I) mid).
+Proof.
+  intros HP HI HS. rewrite (opt_text_matches_front P _ v HP). split.
+  - intros (v' & -> & H). apply (opt_text_matches_end S I v' HS) in H as (mid & -> & H).
+    exists mid. split; [reflexivity|]. now apply inner_matches.
+  - intros (mid & -> & H). exists (mid ++ text_of S). split; [reflexivity|].
+    apply (opt_text_matches_end S I _ HS). exists mid. split; [reflexivity|]. now apply inner_matches.
+Qed.
+
+(* ------------------------------------------------------------------ wildcardSearch.check *)
+
+Lemma check_prefix_spec w v :
+  check_prefix false w v = true <-> exists r, v = w_prefix w ++ r.
+Proof.
+  unfold check_prefix. simpl. destruct (Nat.eqb_spec (length (w_prefix w)) 0) as [E|E].
+  - apply length_zero_iff_nil in E. rewrite E. split; [now exists v | trivial].
+  - destruct (Nat.ltb_spec (length v) (length (w_prefix w))) as [L|L].
+    + split; [discriminate|]. intros (r & ->). rewrite app_length in L. lia.
+    + rewrite beqb_true. split.
+      * intros H. exists (skipn (length (w_prefix w)) v). rewrite H at 1. now rewrite firstn_skipn.
+      * intros (r & ->). rewrite firstn_app, Nat.sub_diag, firstn_all. simpl. now rewrite app_nil_r.
+Qed.
+
+Lemma check_suffix_spec w r :
+  check_suffix w (w_prefix w ++ r) = true <-> exists mid, r = mid ++ w_suffix w.
+Proof.
+  unfold check_suffix. destruct (Nat.eqb_spec (length (w_suffix w)) 0) as [E|E].
+  - apply length_zero_iff_nil in E. rewrite E. split; [|trivial]. exists r. now rewrite app_nil_r.
+  - rewrite app_length. replace (length (w_prefix w) + length r - length (w_prefix w)) with (length r) by lia.
+    destruct (Nat.ltb_spec (length r) (length (w_suffix w))) as [L|L].
+    + split; [discriminate|]. intros (mid & ->). rewrite app_length in L. lia.
+    + rewrite beqb_true.
+      replace (length (w_prefix w) + length r - length (w_suffix w))
+        with (length (w_prefix w) + (length r - length (w_suffix w))) by lia.
+      rewrite skipn_app, skipn_all2 by lia. simpl.
+      replace (length (w_prefix w) + (length r - length (w_suffix w)) - length (w_prefix w))
+        with (length r - length (w_suffix w)) by lia.
+      split.
+      * intros H. exists (firstn (length r - length (w_suffix w)) r). rewrite <- H at 2. now rewrite firstn_skipn.
+      * intros (mid & ->). rewrite app_length.
+        replace (length mid + length (w_suffix w) - length (w_suffix w)) with (length mid) by lia.
+        apply skipn_app_len.
+Qed.
+
+Lemma check_middle_spec w mid : (forall m, In m (w_middle w) -> m <> []) ->
+  exists b, check_middle w (w_prefix w ++ mid ++ w_suffix w) = Some b /\
+            (b = true <-> SeqM (w_middle w) mid).
+Proof.
+  intros Hne. unfold check_middle.
+  destruct (Nat.eqb_spec (length (w_middle w)) 0) as [E|E].
+  - exists true. split; [reflexivity|]. apply length_zero_iff_nil in E. rewrite E. simpl. tauto.
+  - rewrite !app_length.
+    replace (length (w_prefix w) + (length mid + length (w_suffix w)) - length (w_prefix w) - length (w_suffix w))
+      with (length mid) by lia.
+    replace (length (w_prefix w) + (length mid + length (w_suffix w)) - length (w_suffix w) - length (w_prefix w))
+      with (length mid) by lia.
+    destruct (Nat.ltb_spec (length mid) (middle_len w)) as [L|L].
+    + exists false. split; [reflexivity|]. split; [discriminate|].
+      intros H. apply SeqM_len in H. unfold middle_len in L. lia.
+    + rewrite skipn_app_len. rewrite firstn_app, Nat.sub_diag, firstn_all. simpl. rewrite app_nil_r.
+      destruct (find_sequence_spec (w_middle w) Hne mid) as (k & -> & Hk).
+      eexists. split; [reflexivity|]. rewrite Nat.eqb_eq. exact Hk.
+Qed.
+
+Lemma wild_check_spec narrowed w v : (forall m, In m (w_middle w) -> m <> []) ->
+  (narrowed = true -> exists r, v = w_prefix w ++ r) ->
+  exists b, wild_check narrowed w v = Some b /\
+            (b = true <-> exists mid, v = w_prefix w ++ mid ++ w_suffix w /\ SeqM (w_middle w) mid).
+Proof.
+  intros Hne Hn. unfold wild_check.
+  assert (Hp : check_prefix narrowed w v = true <-> exists r, v = w_prefix w ++ r).
+  { destruct narrowed; [|apply check_prefix_spec]. unfold check_prefix. simpl. split; auto. }
+  destruct (check_prefix narrowed w v).
+  2:{ exists false. split; [reflexivity|]. split; [discriminate|].
+      intros (mid & -> & _). assert (false = true); [|discriminate]. apply Hp. eauto. }
+  destruct Hp as [Hp _]. destruct (Hp eq_refl) as (r & ->).
+  pose proof (check_suffix_spec w r) as Hs.
+  destruct (check_suffix w (w_prefix w ++ r)).
+  2:{ exists false. split; [reflexivity|]. split; [discriminate|].
+      intros (mid & E & _). apply app_inv_head in E. subst r.
+      assert (false = true); [|discriminate]. apply Hs. eauto. }
+  destruct Hs as [Hs _]. destruct (Hs eq_refl) as (mid & ->).
+  destruct (check_middle_spec w mid Hne) as (b & -> & Hb).
+  exists b. split; [reflexivity|]. rewrite Hb. split.
+  - intros H. now exists mid.
+  - intros (mid' & E & H). apply app_inv_head in E. apply app_inv_tail in E. now subst.
+Qed.
+
+Lemma bool_iff_eq (a b : bool) : (a = true <-> b = true) -> a = b.
+Proof. destruct a, b; intros [H1 H2]; auto; try (symmetry; now auto). Qed.
+
+(* wildcardSearch.check (narrowed or not) is the glob, for every non-literal well-formed list *)
+Theorem wild_check_glob narrowed ts v : wf ts = true -> is_literal ts = None ->
+  (narrowed = true -> exists r, v = w_prefix (new_wildcard ts) ++ r) ->
+  wild_check narrowed (new_wildcard ts) v = Some (glob ts v).
+Proof.
+  intros W L Hn. destruct (wf_decomp ts W L) as (P & I & S & -> & HP & HI & HS).
+  rewrite new_wildcard_decomp in * by assumption.
+  destruct (wild_check_spec narrowed {| w_prefix := text_of P; w_suffix := text_of S; w_middle := texts I |}
+              v (inner_texts_ne I HI) Hn) as (b & -> & Hb).
+  f_equal. apply bool_iff_eq. rewrite Hb, glob_matches. symmetry. simpl.
+  now apply decomp_matches.
+Qed.
+
+(* literalSearch.check (not narrowed) is the glob of a single text term *)
+Theorem lit_check_glob s v : lit_check false s v = glob [TText s] v.
+Proof.
+  apply bool_iff_eq. unfold lit_check. rewrite beqb_true, glob_matches. split.
+  - intros <-. pose proof (MText s [] [] MNil) as X. now rewrite app_nil_r in X.
+  - intros H. apply Matches_text_front in H as (v' & -> & H). apply Matches_nil in H. subst.
+    now rewrite app_nil_r.
+Qed.
+
+(* the prefix the narrowing uses really is a prefix of everything the glob accepts *)
+Lemma glob_has_prefix ts v : wf ts = true -> is_literal ts = None -> glob ts v = true ->
+  exists r, v = w_prefix (new_wildcard ts) ++ r.
+Proof.
+  intros W L G. destruct (wf_decomp ts W L) as (P & I & S & -> & HP & HI & HS).
+  rewrite new_wildcard_decomp by assumption. simpl.
+  apply glob_matches in G. apply (decomp_matches P I S v HP HI HS) in G as (mid & -> & _). eauto.
+Qed.
